@@ -9,9 +9,6 @@ package query
 //verif:harness VerifC01InterruptedFormats mode=bv tier=quick split=6
 
 import (
-	"context"
-	"time"
-
 	"github.com/mithrandie/csvq/lib/parser"
 	"github.com/mithrandie/csvq/lib/value"
 )
@@ -159,33 +156,6 @@ func listOf(newExists bool) string {
 	}
 	return "a.csv\nb.csv\nl.ltsv"
 }
-
-// verifCancelCtx: a context that is cancelled (SIGINT / SIGTERM reach csvq as context cancellation)
-// at the k-th time the program looks at it; k is chosen by the engine.
-type verifCancelCtx struct {
-	ch    chan struct{}
-	looks int
-	at    int
-	fired bool
-}
-
-func (c *verifCancelCtx) look() {
-	c.looks++
-	if !c.fired && c.at > 0 && c.looks >= c.at {
-		c.fired = true
-		close(c.ch)
-	}
-}
-func (c *verifCancelCtx) Deadline() (deadline time.Time, ok bool) { return time.Time{}, true }
-func (c *verifCancelCtx) Done() <-chan struct{}                   { c.look(); return c.ch }
-func (c *verifCancelCtx) Err() error {
-	c.look()
-	if c.fired {
-		return context.Canceled
-	}
-	return nil
-}
-func (c *verifCancelCtx) Value(key interface{}) interface{} { return nil }
 
 // The same procedures interrupted at any point at which csvq observes its context (up to the 12th
 // observation, thorough 24th): the run ends with an error or normally, and in either case each
